@@ -134,6 +134,16 @@ func verifYieldCapture() {
 	}
 }
 
+// verifYieldWrite is inserted at the start of writeFrameAsync: the frame-writing
+// goroutine parks before it touches the frame, holding no lock, while the serve
+// loop believes a write is in flight - what a socket write blocked by TCP
+// back-pressure looks like to the rest of the connection.
+func verifYieldWrite(sc *serverConn) {
+	if f := VerifYield; f != nil {
+		f("write", sc.conn.RemoteAddr().String())
+	}
+}
+
 // verifYieldBodyRead is inserted at the start of noteBodyReadFromHandler.
 func verifYieldBodyRead(sc *serverConn) {
 	if f := VerifYield; f != nil {
